@@ -25,12 +25,13 @@ COMPONENTS = {"real": ["SCSIDevice (open/close/execute/_is_replugged/__exit__)",
               "stubs": ["virtual /dev namespace behind builtins.open / os.stat (inodes, handles, close faults)", "sgio module", "iscsi module"],
               "simulated_peers": ["t10.targets LUs behind each node generation"]}
 ASSUMPTIONS = [
+    "inode numbers may be recycled by later nodes, but never the number the library's currently open handle was opened on (indistinguishable for any stat-based detection)",
     "node replacement happens between library calls (the simulator is sequential); a replug between the library's stat() and its ioctl is a race no user-space code can close and is not generated",
     "a handle whose close() raised and stayed open at OS level is exempt from the exactly-one-release count",
     "when closing the stale handle fails, the exception may or may not propagate; what is demanded is that a fresh handle on the current inode was opened during that call and that no command was sent through the stale one",
 ]
 AUX_NAME = "event histories (sequence of op kinds incl. fault flavours, without ids)"
-REQUIRED_PROBES = ["raw_sense_execute", "cmd_after_replug", "close_fails", "replug_and_close_fails", "unplug_detected", "with_exit_exception", "detect_off_kept_handle", "iscsi_disconnect_once"]
+REQUIRED_PROBES = ["inode_number_reused", "reattach_same_device", "raw_sense_execute", "cmd_after_replug", "close_fails", "replug_and_close_fails", "unplug_detected", "with_exit_exception", "detect_off_kept_handle", "iscsi_disconnect_once"]
 
 PATH = "/dev/sg3"
 
@@ -54,6 +55,8 @@ def gen_ops(rng, n):
             op = {"op": "replug"}
             if rng.random() < 0.3:
                 op["type"] = rng.choice([0, 5, 8, 3])
+            if rng.random() < 0.25:
+                op["reuse_ino"] = rng.choice([0, 0, 1, 2])     # the new node gets the inode number of an earlier generation (tmpfs/devtmpfs recycle numbers)
             pending = True
         elif r < 0.63:
             op = {"op": "unplug"}
@@ -65,8 +68,12 @@ def gen_ops(rng, n):
             op = {"op": "arm_close_fails", "errno": rng.choice([5, 9, 28]), "releases": rng.random() < 0.7}
         elif r < 0.95:
             op = {"op": "close"}
-        else:
+        elif r < 0.975:
             op = {"op": "execute", "cc": False, "via_facade": True}
+        else:
+            op = {"op": "reattach_same"}       # scsi(dev) with the device the facade already holds (re-runs type detection)
+        if op["op"] == "execute" and rng.random() < 0.08:
+            op["ioctl_errno"] = rng.choice([19, 6, 5])       # the binding's ioctl fails (ENODEV / ENXIO / EIO)
         ops.append(op)
     return ops
 
@@ -105,6 +112,7 @@ def execute(prog):
         gen[0] += 1
         return T.make_lu(t, 0, gen[0])
 
+    sgio_mode_early = cfg["transport"] != "iscsi"
     if cfg["transport"] == "iscsi":
         lu = new_lu()
         kind, dev = worlds.outcome_of(lambda: worlds.open_device("iscsi", lu))
@@ -113,6 +121,7 @@ def execute(prog):
         kind, dev = worlds.outcome_of(lambda: SCSIDevice(PATH, readwrite=cfg["readwrite"], detect_replugged=cfg["detect"]))
     if kind == "exc":
         raise RuntimeError("harness: device construction failed: %r" % (dev,))
+    inos = [WORLD.nodes[PATH].ino] if sgio_mode_early else []
     st = {"closed": False, "post_replug": False, "first_hid": 0, "cmds_after_event": 0, "explicit_close": False}
     sgio_mode = cfg["transport"] == "sgio"
 
@@ -129,7 +138,9 @@ def execute(prog):
 
     def do_execute(op, scsi):
         WORLD.armed.clear()
-        if op.get("cc"):
+        if op.get("ioctl_errno"):
+            WORLD.arm({"kind": "ioctl_error", "errno": op["ioctl_errno"]})
+        elif op.get("cc"):
             WORLD.arm({"kind": "status", "byte": 2, "sense": S.fixed(6, 0x29, 0).hex()})
         mark_ev = len(WORLD.events)
         node = WORLD.nodes.get(PATH) if sgio_mode else None
@@ -168,10 +179,10 @@ def execute(prog):
                     WORLD.probe("unplug_detected")
                 return kind, val
             for e in cmds:
-                if e.get("handle_ino") != e.get("path_ino"):
+                if not e.get("same_node", e.get("handle_ino") == e.get("path_ino")):
                     V.append(dict(oracle="C15.stale-handle", where=where, detail="cmd",
-                                  expected="command through a handle on inode %s (the node now at the path)" % e.get("path_ino"),
-                                  actual="handle #%d opened on inode %s" % (e["hid"], e.get("handle_ino"))))
+                                  expected="command through a handle on the node now at the path (inode %s)" % e.get("path_ino"),
+                                  actual="handle #%d opened on an earlier node (inode %s)" % (e["hid"], e.get("handle_ino"))))
                 # superseded handles have had close attempted
                 for h in WORLD.handles[:e["hid"]]:
                     if h.close_calls == 0:
@@ -189,14 +200,14 @@ def execute(prog):
                 if cmds:
                     WORLD.probe("cmd_after_replug")
                 st["post_replug"] = False
-                if not closes_failed and not op.get("cc") and kind == "exc" and not isinstance(val, KeyboardInterrupt):
+                if not closes_failed and not op.get("cc") and not op.get("ioctl_errno") and kind == "exc" and not isinstance(val, KeyboardInterrupt):
                     V.append(dict(oracle="C15.replug-breaks-command", where=where, detail=type(val).__name__,
                                   expected="command executes through the fresh handle", actual=repr(val)[:100]))
             else:
                 if opens:
                     # re-opening although the node was not replaced is wasteful but not forbidden by the property: counted, not judged
                     WORLD.probe("reopen_without_replug")
-                if not op.get("cc") and kind == "exc" and not closes_failed:
+                if not op.get("cc") and not op.get("ioctl_errno") and kind == "exc" and not closes_failed:
                     V.append(dict(oracle="C15.command-fails", where=where, detail=type(val).__name__,
                                   expected="command executes (node unchanged)", actual=repr(val)[:100]))
         else:
@@ -209,7 +220,7 @@ def execute(prog):
                                   expected="original handle #%d" % st["first_hid"], actual="handle #%d" % e["hid"]))
                 elif st["post_replug"]:
                     WORLD.probe("detect_off_kept_handle")
-            if len(cmds) != 1 and not st["closed"]:
+            if len(cmds) != 1 and not st["closed"] and not op.get("ioctl_errno"):
                 V.append(dict(oracle="C15.command-not-sent", where=where, detail="count=%d" % len(cmds),
                               expected="one command through the original handle", actual="%d" % len(cmds)))
         if op.get("cc") and cmds and kind == "ok":
@@ -228,7 +239,18 @@ def execute(prog):
                 kind, val = do_execute(op, scsi)
                 summary.append("x:%s" % ("ok" if kind == "ok" else type(val).__name__))
             elif name == "replug" and sgio_mode:
-                WORLD.replug(PATH, new_lu(op.get("type", 0)) if PATH in WORLD.nodes or True else None)
+                ino = None
+                if "reuse_ino" in op and len(inos) > op["reuse_ino"]:
+                    cand = inos[op["reuse_ino"]]
+                    cur_node = WORLD.nodes.get(PATH)
+                    live = [h for h in WORLD.handles if not h.closed]
+                    # a node that comes back with the very inode number the library's handle was opened on cannot be told apart by any
+                    # stat-based detection; that case is not generated (ASSUMPTIONS)
+                    if (cur_node is None or cur_node.ino != cand) and not any(h.ino == cand for h in live):
+                        ino = cand
+                        WORLD.probe("inode_number_reused")
+                node = WORLD.replug(PATH, new_lu(op.get("type", 0)), ino)
+                inos.append(node.ino)
                 st["post_replug"] = True
                 summary.append("replug")
             elif name == "unplug" and sgio_mode:
@@ -241,6 +263,14 @@ def execute(prog):
                     WORLD.plug(PATH, new_lu())
                     st["post_replug"] = True
                 summary.append("plug")
+            elif name == "reattach_same":
+                if scsi is not None:
+                    WORLD.armed.clear()
+                    k0, v0 = worlds.outcome_of(lambda: scsi(dev))
+                    WORLD.probe("reattach_same_device")
+                    if sgio_mode and cfg["detect"] and st["post_replug"] and PATH in WORLD.nodes:
+                        st["post_replug"] = False       # the attach INQUIRY already went through the replug path
+                    summary.append("reattach:%s" % ("ok" if k0 == "ok" else type(v0).__name__))
             elif name == "arm_close_fails" and sgio_mode:
                 live = [h for h in WORLD.handles if not h.closed]
                 if live:
